@@ -520,6 +520,10 @@ inductive Instruction where
   | wait
   deriving Repr, Inhabited
 
+/- Boolean structural equality (`DecidableEq` cannot be derived for a type nested through `List`; every
+payload type has `DecidableEq`).  Not proved lawful: use it in drivers and `#eval`s, state theorems with `=`. -/
+deriving instance BEq for Instruction
+
 /-- the variant's name as in the Rust enum (distribution tags, `instrgen::variant_name`) -/
 def Instruction.variantName : Instruction → String
   | .arithmetic _ => "Arithmetic" | .binaryLogic _ => "BinaryLogic"
